@@ -67,6 +67,7 @@ def hyps_at(func, use, extra=None):
         if not _stable(func, c, use, names):
             continue
         hyps += cmp_constraints(c, truth)
+        hyps += helper_constraints(func, c, truth)
     # definitions v = MIN(..)/MAX(..) and v = strlen(..) that dominate the use
     for n, lv, op, rhs in stores(func.body):
         if op not in ("=", "init") or rhs is None or lv["k"] not in ("ref", "var"):
@@ -147,6 +148,59 @@ def loop_exit_hyps(func, use):
         if a.is_const() and a.k == 0:
             out.append(("exit", iv, n_))
     return out
+
+
+def helper_constraints(func, cond, truth, subst=None, version=None):
+    """When `cond` is (a negation of) a call to a small predicate helper of the repository --
+    every return a constant or a boolean expression, a unique path for the given truth -- the
+    constraints that path implies, with the helper's parameters replaced by the arguments."""
+    prog = _PROG[0]
+    c, t = negate_truth(cond, truth)
+    if prog is None or c["k"] != "call" or not c.get("fn"):
+        return []
+    g = prog.resolve(func, c["fn"])
+    if g is None or len(g.params) != len(c["args"]) or len(g.params) > 4:
+        return []
+    if len(list(g.walk())) > 160 or any(x["k"] in ("while", "for", "do", "switch") for x in g.walk()):
+        return []
+    # the helper must be pure enough: no stores except to its own locals, no calls but accessors
+    for n, lv, op, rhs in stores(g.body):
+        if lv["k"] not in ("ref", "var") or lv.get("cat") in ("global", "slocal"):
+            return []
+    args = []
+    for a in c["args"]:
+        la = linearize(strip_casts(a), subst)
+        if la is None:
+            return []
+        args.append(version(la) if version else la)
+    psub = {p_["name"]: la for p_, la in zip(g.params, args)}
+    from .cfg import paths_to
+    found = []
+    for r in g.cfg.return_nodes():
+        e = r.get("e")
+        if e is None:
+            return []
+        for items in paths_to(g.cfg, g.cfg.entry, r["id"]):
+            cons = []
+            for it in items:
+                if it[0] == "br":
+                    cons += cmp_constraints(g.nodes[it[1]], it[2], psub)
+            v = cval(e)
+            if v is not None:
+                if (v != 0) == t:
+                    found.append(cons)
+            else:
+                found.append(cons + cmp_constraints(e, t, psub) + [("maybe",)])
+    from .lin import feasible as _feas
+    found = [c_ for c_ in found if _feas([x for x in c_ if not (isinstance(x, tuple) and x and x[0] == "maybe")])]
+    if len(found) != 1:
+        return []
+    cons = found[0]
+    if any(isinstance(x, tuple) and x and x[0] == "maybe" for x in cons):
+        # a boolean return expression: its constraints only hold if it is what decides; with a
+        # single candidate path that is the case
+        cons = [x for x in cons if not (isinstance(x, tuple) and x and x[0] == "maybe")]
+    return cons
 
 
 def clamps_before(func, use):
@@ -517,6 +571,7 @@ def path_states(func, target_nid, init_hyps=None, max_paths=4000, header_hyps=No
     cfg = func.cfg
     out = []
     lsn = loop_stored_names(func)
+    loops_ = cfg.loops()
     for items in paths_to(cfg, cfg.entry, target_nid, max_paths=max_paths):
         if not path_consistent(func, items):
             continue
@@ -566,6 +621,13 @@ def path_states(func, target_nid, init_hyps=None, max_paths=4000, header_hyps=No
                     for nm in lsn[it[1]]:
                         subst[nm] = Lin({"?%s@h%d" % (nm, it[1]): 1})
                         epoch[nm] = epoch.get(nm, 0) + 1
+                    # bottom-tested loop (do-while): on re-entry the continuation test also
+                    # holds, which this acyclic walk does not model -> failures there are
+                    # `not decided`
+                    hb = cfg.blocks[it[1]]
+                    body_ = loops_.get(it[1], set())
+                    if not any(s_ is not None and s_ not in body_ for s_ in hb.succ):
+                        subst["__havoc__"] = Lin(k=1)
                     if header_hyps and (assume_fields is None or
                                         any(nm.endswith("->" + fl) for nm in lsn[it[1]] for fl in assume_fields)):
                         hyps += header_hyps(subst)
@@ -576,6 +638,7 @@ def path_states(func, target_nid, init_hyps=None, max_paths=4000, header_hyps=No
                 _lin._COND_RES[0] = byid
                 try:
                     hyps += [version(h) for h in cmp_constraints(c, it[2], subst)]
+                    hyps += helper_constraints(func, c, it[2], subst, version)
                 finally:
                     _lin._COND_RES[0] = None
                 continue
